@@ -52,6 +52,9 @@ MatV == {<<"Mat4", s, d>> : s \in AliasB, d \in AliasB} \cup {<<"MatP", s>> : s 
 PtV == {<<"Pt", "3", b>> : b \in AliasB}
 Res(t) == IF t[1] = "Alias" THEN Denotes(t[2]) ELSE t
 
+CurvT == {<<"Polar">>, <<"Spherical">>}
+CurvDim(t) == IF t = <<"Polar">> THEN "2" ELSE "3"
+
 Kind(t) == t[1]
 P3 == {t \in PtT : t[2] = "3"}
 V3 == {t \in VecT : t[2] = "3"}
@@ -110,6 +113,11 @@ Programs ==
   \cup {<<op, <<a, p>>>> : op \in {"Apply", "ApplyPt"}, a \in AliasT \cup MatV, p \in PtV}
   \cup {<<"CamMode", <<m>>>> : m \in AliasT \cup MatV}
   \cup {<<"CamModeTo", <<m>>>> : m \in AliasT \cup MatV}
+  \* polar / spherical vectors are vectors of ANOTHER space: they offset a Cartesian point or vector only
+  \* after an explicit conversion (to_cart(), or into() where the target is determined)
+  \cup {<<op, <<a, b>>>> : op \in {"Add", "AddCart", "AddInto"}, a \in {x \in PtT \cup VecT : x[3] \in {"Unit", "Model"}}, b \in CurvT}
+  \* summing an iterator: of vectors, not of points
+  \cup {<<"Sum", <<a>>>> : a \in PtT \cup VecT}
   \* render(): the vertex shader must output clip-space (projective) positions
   \cup {<<"Render", <<o>>>> : o \in {<<"ProjVec4">>, <<"Vec", "3", "Model">>, <<"Pt", "3", "Model">>}}
 
@@ -118,6 +126,9 @@ SameTags(a, b) == a = b
 WellTyped(pr) ==
   LET op == pr[1]  a == Res(pr[2][1])  b == IF Len(pr[2]) >= 2 THEN Res(pr[2][2]) ELSE <<"none">> IN
   CASE op = "AliasIs" -> a = b
+    [] op = "Add" /\ b \in CurvT -> FALSE
+    [] op \in {"AddCart", "AddInto"} -> Kind(a) \in {"Pt", "Vec"} /\ a[2] = CurvDim(b) /\ a[3] = "Unit"
+    [] op = "Sum" -> Kind(a) = "Vec"
     [] op = "ThenA" -> Kind(a) = "Mat4" /\ a[3] = b[2]
     [] op = "CamMode" -> a = <<"Mat4", "World", "View">>
     [] op = "CamModeTo" -> TRUE
@@ -166,7 +177,8 @@ Class(pr) ==
   ELSE IF op = "Add" /\ Kind(a) = "Pt" /\ Kind(b) = "Pt" THEN "add-points"
   ELSE IF op \in {"Add", "Sub", "Lerp", "Dot", "AffAdd", "AffSub"} /\ Kind(a) \in {"Vec", "Pt", "Col"} /\ Kind(b) = Kind(a) /\ a[2] # b[2] THEN "mixed-dimension-or-repr"
   ELSE IF op \in {"Add", "Sub", "Lerp", "Dot", "AffAdd", "AffSub"} /\ Kind(a) \in {"Vec", "Pt", "Col"} THEN "mixed-space"
-  ELSE IF op \in {"AliasIs", "CamMode"} THEN "mixed-space"
+  ELSE IF op \in {"AliasIs", "CamMode", "AddCart", "AddInto"} \/ b \in CurvT THEN "mixed-space"
+  ELSE IF op = "Sum" THEN "add-points"
   ELSE IF op = "ThenA" THEN "compose-mismatch"
   ELSE IF op \in {"Apply", "ApplyPt"} /\ Kind(Res(a)) = "MatP" THEN "projective-as-affine"
   ELSE IF op \in {"Apply", "ApplyPt", "ApplyRes", "ApplyPtRes"} THEN "apply-outside-source"
